@@ -237,7 +237,7 @@ def is_symscalar(v):
 def deep_concrete(v):
     if isinstance(v, (z3.ExprRef, SStr, SSeq, SObj, BoundMethod, SFunc, SExc, GhostFn, BoundStrMethod)):
         return False
-    if type(v).__name__ in ("SElem", "SElemList"):
+    if getattr(type(v), "__pyvc_symbolic__", False):
         return False
     if isinstance(v, (list, tuple, set, frozenset)):
         return all(deep_concrete(x) for x in v)
@@ -1222,6 +1222,12 @@ class Interp:
         return self.comprehension(node, frame, "list")
 
     def e_GeneratorExp(self, node, frame):
+        if len(node.generators) == 1:
+            g = node.generators[0]
+            src = self.eval(g.iter, frame)
+            if hasattr(src, "sym_lazy_filter"):
+                return src.sym_lazy_filter(self, node, g, frame)
+            return self.comprehension(node, frame, "list", first_iter=src)
         return self.comprehension(node, frame, "list")
 
     def e_SetComp(self, node, frame):
@@ -1251,13 +1257,13 @@ class Interp:
         rec(0)
         return out
 
-    def comprehension(self, node, frame, kind):
+    def comprehension(self, node, frame, kind, first_iter=_MISSING):
         inner = Frame(frame.fn, {}, frame.node, frame.qn)
         inner.globals, inner.cells, inner.parent = frame.globals, frame.cells, frame
         # lazy map over a symbolic-length sequence
         if len(node.generators) == 1:
             g = node.generators[0]
-            it = self.eval(g.iter, inner)
+            it = self.eval(g.iter, inner) if first_iter is _MISSING else first_iter
             if isinstance(it, SSeq) and not z3.is_int_value(z3.simplify(to_int(it.length))):
                 if g.ifs:
                     raise Unsupported("filtered comprehension over symbolic-length sequence")
@@ -1756,6 +1762,12 @@ class Interp:
             return
         if hasattr(obj, "sym_setattr"):
             return obj.sym_setattr(self, name, v)
+        if deep_concrete(obj) and deep_concrete(v) and not isinstance(obj, (type, types.ModuleType)):
+            # closed term: store on a real (loose) object created by the real code itself
+            try:
+                return setattr(obj, name, v)
+            except Exception as e:
+                raise PyRaise(type(e), e.args)
         raise Unsupported("attribute store on %r" % (obj,))
 
     # -- subscripts --
